@@ -568,7 +568,9 @@ def do_run(mod, modname, tier, seed, b, scratch, t0):
             key = (v['monitor'], v['msg'][:80])
             if len(new) >= 5:
                 break
-            v2 = minimise(mod, ctx, v) if len(seen_msgs) < 8 else v
+            if key in seen_msgs and not (hasattr(mod, 'classify') and findings):
+                continue
+            v2 = minimise(mod, ctx, v) if len(seen_msgs) < 6 else v
             fid = mod.classify(v2['case'], v2, findings) if hasattr(mod, 'classify') and findings else None
             if fid:
                 attributed[fid] = attributed.get(fid, 0) + 1
